@@ -411,3 +411,60 @@ def c_rand_sets(c, seqs):
                     info=tag)
             for f in rs.all_fields():
                 f.dispose()
+
+
+# ---- C08 / C07: which blocks are collected ----------------------------------------------------------------------------------
+@contract("rand_info_builder.composite_blocks", ["C08", "C07", "C03"],
+          ["vsc.model.rand_info_builder.RandInfoBuilder.visit_composite_field", "vsc.model.rand_info_builder.RandInfoBuilder.visit_constraint_block",
+           "vsc.model.field_composite_model.FieldCompositeModel.set_used_rand"],
+          lambda tier, seed: [(a, b, c_, order) for a in (False, True) for b in (False, True) for c_ in (False, True)
+                              for order in ("nested_first", "nested_last", "nested_list")], replay="none",
+          note="object trees root -> sub -> nested (composite or list of composites), every combination of declared-random flags, "
+               "nested composite before / after the scalar fields")
+def c_composite_blocks(c, sub_rand, nested_rand, sib_rand, order):
+    from vsc.model.field_composite_model import FieldCompositeModel
+    from vsc.model.field_array_model import FieldArrayModel
+    from vsc.model.field_scalar_model import FieldScalarModel
+    from vsc.model.constraint_block_model import ConstraintBlockModel
+    from vsc.model.constraint_expr_model import ConstraintExprModel
+    from vsc.model.expr_bin_model import ExprBinModel
+    from vsc.model.expr_fieldref_model import ExprFieldRefModel
+    from vsc.model.expr_literal_model import ExprLiteralModel
+    from vsc.model.bin_expr_type import BinExprType
+    from vsc.model.rand_info_builder import RandInfoBuilder
+
+    def comp(name, is_rand):
+        o = FieldCompositeModel(name, is_rand)
+        f = FieldScalarModel(name + ".x", 8, False, True)
+        st = ConstraintExprModel(ExprBinModel(ExprFieldRefModel(f), BinExprType.Lt, ExprLiteralModel(9, False, 8)))
+        o._x, o._st = f, st
+        return o
+    root = comp("root", True)
+    sub = comp("sub", sub_rand)
+    nested = comp("nested", nested_rand)
+    sib = comp("sib", sib_rand)
+    holder = nested
+    if order == "nested_list":
+        holder = FieldArrayModel("nl", None, False, None, -1, -1, nested_rand, False)
+        holder.append(nested)
+    if order == "nested_last":
+        sub.add_field(sub._x)
+        sub.add_field(holder)
+    else:
+        sub.add_field(holder)
+        sub.add_field(sub._x)
+    nested.add_field(nested._x)
+    sib.add_field(sib._x)
+    root.add_field(root._x)
+    root.add_field(sub)
+    root.add_field(sib)
+    for o in (root, sub, nested, sib):
+        o.add_constraint(ConstraintBlockModel("c", [o._st]))
+    root.set_used_rand(True, 0)
+    ri = RandInfoBuilder.build([root], [], None)
+    got = {id(x) for rs in ri.randsets() for x in rs.constraints()}
+    for o in (root, sub, nested, sib):
+        c.check("a composite's own blocks are collected exactly when that composite is random in the call",
+                (id(o._st) in got) == bool(o.is_used_rand), info="%s used_rand=%s collected=%s" % (o.name, o.is_used_rand, id(o._st) in got))
+    c.check("used-random status propagates down only through declared-random composites",
+            bool(sub.is_used_rand) == sub_rand and bool(nested.is_used_rand) == (sub_rand and nested_rand) and bool(sib.is_used_rand) == sib_rand)
